@@ -10,7 +10,22 @@ re-arm for pipelined messages).  All three must produce identical snapshot lists
 error, ended) and identical unconsumed bytes.  Secondary, separately labelled
 clause: the common result equals the generating spec, which catches a bug that
 is the same in all partitions.
+
+Long lines ("long" field of a case): one line of one message - request target,
+response reason, a header line, a chunk-size line (through a chunk extension) or
+a chunked trailer line - is padded at run time so that its content (without the
+terminator) is exactly the tree's httping.MAX_LINE_SIZE + delta bytes, delta in
+{-1, 0, +1}.  The oracle is unchanged (same outcome, parsed message or error, for
+every delivery of the same bytes; no opinion about where the limit is or whether
+such a line is accepted).  To keep a 64 KiB case cheap the "1-byte reads" delivery
+hands over the inside of the padding run in one read and everything else - all
+bytes before it, the last bytes of the line, its terminator and the rest - one
+byte per read; the generated partition and a set of single cuts are placed at the
+bytes around the line's terminator (before the last content byte, before CR,
+between CR and LF, after LF, ...).
 """
+import copy
+
 from hypothesis import strategies as st
 
 from vlib import httpdrive, httpgen
@@ -19,19 +34,29 @@ from vlib.core import Result
 PID = "C13"
 RULE = ("cases: 1-3 pipelined well-formed requests (Requestant) or responses (Respondent): content-length / chunked with "
         "extensions, trailers, hex case, leading zeros / close-delimited / no-body statuses / 100-continue preface, CRLF or "
-        "bare-LF head lines, bodies containing CR, LF, CRLF and look-alike framing; x a fragmentation recipe (plus every single cut within the first 48 bytes) x 0-2 service "
+        "bare-LF head lines, bodies containing CR, LF, CRLF and look-alike framing, and (long-line searches) one start line / "
+        "header line / chunk-size line / trailer line of limit-1, limit or limit+1 content bytes, limit = httping.MAX_LINE_SIZE, "
+        "cut at every byte around its terminator; x a fragmentation recipe (plus every single cut within the first 48 bytes) x 0-2 service "
         "passes without new bytes after each read. "
-        "non-trivial = body contains CR or LF or the message has chunked trailers/extensions, and the generated "
+        "non-trivial = body contains CR or LF or the message has chunked trailers/extensions or a line at the size limit, and the generated "
         "partition has >= 2 interior cuts; distinct = canonical hash of (specs, recipe)")
 ASSUMPTIONS = ["the driver mirrors Server.serviceReqs/serviceReps and Client.serviceResponse (parse, snapshot on end, makeParser)",
                "close-delimited responses are only generated as the last message and get close() after the last fragment",
-               "header values carry no leading/trailing blanks (optional whitespace handling is not judged)"]
+               "header values carry no leading/trailing blanks (optional whitespace handling is not judged)",
+               "long-line cases: the 1-byte-read delivery hands the inside of the 64 KiB padding run over in one read (all other "
+               "bytes singly); genuine 1-byte reads over the whole line only in 1 of 16 thorough-tier cases",
+               "a message that every delivery rejects alike for a line over the size limit is not compared with its spec"]
 
 
 def run_one(kind, data, frags, close, method, idle=(0,)):
     if kind == "req":
         return httpdrive.drive_requestant(frags, idle=idle)
     return httpdrive.drive_respondent(frags, close=close, method=method, idle=idle)
+
+
+def _short(x, limit=160):
+    t = repr(x)
+    return t if len(t) <= limit else "%s...(%d characters)" % (t[:limit], len(t))
 
 
 def diff(a, b):
@@ -44,44 +69,186 @@ def diff(a, b):
     for i, (x, y) in enumerate(zip(ra, rb)):
         for k in x:
             if x[k] != y.get(k):
-                return "message %d field %s: %r vs %r" % (i, k, x[k], y.get(k))
+                return "message %d field %s: %s vs %s" % (i, k, _short(x[k]), _short(y.get(k)))
     if la != lb:
         return "unconsumed bytes %r vs %r" % (la[:60], lb[:60])
     return None
+
+
+# ---------------------------------------------------------------- long lines
+
+PAD_HEADER = "X-Padding-Line"    # longer than any generated header name (max 12), so it cannot collide with one
+PAD_EXT = "padext"               # longer than any generated chunk extension name (max 5)
+LONG_WHERE = ("target", "reason", "header", "ext", "trailer")
+
+
+def line_limit(long):
+    """The line size the padded line is measured against: the tree's own constant (so the cases follow a tree that
+    changes it) unless the case pins one."""
+    return int(long.get("limit") or getattr(httpdrive.httping, "MAX_LINE_SIZE", 65536))
+
+
+def _padded(spec, long, n):
+    """Copy of spec with n padding characters in the line long['where'] names."""
+    s = copy.deepcopy(spec)
+    pad = "a" * n
+    where = long["where"]
+    at = int(long.get("at", 0))
+    if where in ("ext", "trailer") and s["frame"] != "chunked":
+        where = "header"
+    if where == "target" and s["t"] != "req" or where == "reason" and s["t"] != "resp":
+        where = "header"
+    if where == "target":
+        s["target"] = s["target"] + pad
+    elif where == "reason":
+        s["reason"] = s["reason"] + pad
+    elif where == "header":
+        s["headers"] = [list(h) for h in s["headers"]]
+        s["headers"].insert(at % (len(s["headers"]) + 1), [PAD_HEADER, pad])
+    elif where == "trailer":
+        s["trailers"] = [list(h) for h in s.get("trailers") or []]
+        s["trailers"].insert(at % (len(s["trailers"]) + 1), [PAD_HEADER, pad])
+    else:  # chunk-size line of chunk number at (the last-chunk line included), through an extension value
+        nlines = len(httpgen.chunked_body(s)[1]) + 1
+        i = at % nlines
+        exts = [[list(e) for e in x] for x in (s.get("exts") or [])]
+        while len(exts) <= i:
+            exts.append([])
+        exts[i].append([PAD_EXT, pad])
+        s["exts"] = exts
+    return s
+
+
+def _measure(spec, long, n):
+    """(bytes of the message with n pad characters, offset of the line start, offset of its first terminator byte,
+    offset just behind the padding run)."""
+    a = httpgen.build(_padded(spec, long, n))
+    b = httpgen.build(_padded(spec, long, n + 1))
+    p = next(i for i in range(len(a)) if a[i] != b[i])     # the byte behind the padding run (never another 'a')
+    start = a.rfind(b"\n", 0, p) + 1
+    end = a.find(b"\n", p)
+    if end > 0 and a[end - 1:end] == b"\r":
+        end -= 1
+    return a, start, end, p
+
+
+def apply_long(specs, long):
+    """-> (specs with the padded message, data, mark, lo, hi): the padded line has limit + delta content bytes, its
+    first terminator byte is data[mark], data[lo:hi] is the padding run."""
+    specs = list(specs)
+    k = int(long.get("msg", 0)) % len(specs)
+    want = line_limit(long) + int(long.get("delta", 0))
+    _a, start, end, _p = _measure(specs[k], long, 1)
+    n = max(0, 1 + want - (end - start))
+    a, start, end, p = _measure(specs[k], long, n)
+    specs[k] = _padded(specs[k], long, n)
+    off = sum(len(httpgen.build(s)) for s in specs[:k])
+    data = b"".join(httpgen.build(s) for s in specs)
+    assert data[off:off + len(a)] == a
+    return specs, data, off + end, off + p - n, off + p
+
+
+def sparse_single(data, lo, hi, keep=24):
+    """One byte per read, except that the inside of data[lo:hi] (the padding run without its first and last keep
+    bytes) arrives in one read."""
+    lo, hi = lo + keep, hi - keep
+    if hi - lo < 64:
+        return [data[i:i + 1] for i in range(len(data))]
+    return [data[i:i + 1] for i in range(lo)] + [data[lo:hi]] + [data[i:i + 1] for i in range(hi, len(data))]
+
+
+def fragments(data, recipe, mark=None):
+    if recipe["mode"] != "near":
+        return httpgen.fragments(data, recipe)
+    n = len(data)
+    base = n // 2 if mark is None else mark
+    pts = {base + o for o in recipe.get("offs", [])}
+    if n > 1:
+        pts |= {p % (n - 1) + 1 for p in recipe.get("extra", [])}
+    out, prev = [], 0
+    for p in sorted(p for p in pts if 0 < p < n):
+        out.append(data[prev:p])
+        prev = p
+    out.append(data[prev:])
+    return out
+
+
+def _errs(x):
+    res, _left, raised = x
+    return [m["errored"] for m in res], raised
+
+
+def _control_fails(case):
+    """The same case with the long line clearly below the limit: does it fail as well (then the limit is not the cause)?"""
+    ctl = dict(case)
+    ctl["long"] = dict(case["long"], delta=min(int(case["long"].get("delta", 0)), 0) - 8, control=True)
+    return bool(run_case(ctl).failures)
 
 
 def run_case(case):
     r = Result()
     kind = case["k"]
     specs = case["msgs"]
-    data = b"".join(httpgen.build(s) for s in specs)
+    long = case.get("long")
+    mark = None
+    if long:
+        specs, data, mark, lo, hi = apply_long(specs, long)
+    else:
+        data = b"".join(httpgen.build(s) for s in specs)
     close = kind == "resp" and specs[-1]["frame"] == "close"
     method = "GET"
     whole = run_one(kind, data, [data], close, method)
-    single = run_one(kind, data, [data[i:i + 1] for i in range(len(data))], close, method)
-    frags = httpgen.fragments(data, case["cuts"])
+    if long and not case.get("full1"):
+        single = run_one(kind, data, sparse_single(data, lo, hi), close, method)
+    else:
+        single = run_one(kind, data, [data[i:i + 1] for i in range(len(data))], close, method)
+    frags = fragments(data, case["cuts"], mark)
     idle = tuple(case.get("idle") or (0,))
     part = run_one(kind, data, frags, close, method, idle)
     lf_head = any(s.get("eol") == "lf" for s in specs)
     d = diff(whole, single)
+    other = single
     which = "one read vs 1-byte reads"
+    if long and not case.get("full1"):
+        which += " (inside of the padding in one read)"
     if d is None:
         d = diff(whole, part)
+        other = part
         which = "one read vs partition %r" % (case["cuts"]["mode"],)
-    if d is None:
+    if d is None and long:
+        # every single cut at the bytes around the terminator of the long line, the rest in one read
+        for at in range(max(1, mark - 3), min(len(data) - 1, mark + 4) + 1):
+            one = run_one(kind, data, [data[:at], data[at:]], close, method)
+            d = diff(whole, one)
+            if d is not None:
+                other = one
+                which = "one read vs a single cut %+d bytes from the terminator of the long line (byte %d)" % (at - mark, at)
+                break
+    if d is None and not long:
         # every single cut within the first bytes of the data (start line / interim response / first header lines), the
         # rest in one read: the shapes in which one parser object is re-used across lines that arrive together
+        # (not for the 64 KiB cases: the other searches cover these shapes at a fraction of the cost)
         for at in range(1, min(48, len(data) - 1) + 1):
             one = run_one(kind, data, [data[:at], data[at:]], close, method)
             d = diff(whole, one)
             if d is not None:
+                other = one
                 which = "one read vs a single cut after byte %d" % at
                 break
     if d is not None:
         sig = "C13/fragmentation-dependent"
-        if lf_head and b"\r\n" in data:
+        if long and _errs(whole) != _errs(other) and not long.get("control") and not _control_fails(case):
+            # classification only: a line near the size limit is an error in one delivery and not in another, and the
+            # same case with that line a few bytes shorter is parsed alike by every delivery
+            sig = "C13/fragmentation-dependent(line at the size limit accepted or rejected depending on the reads)"
+        elif lf_head and b"\r\n" in data:
             sig = "C13/fragmentation-dependent(bare-LF head with CRLF later in the data)"
+        if long:
+            which = "%s line of %d%+d bytes; %s" % (long["where"], line_limit(long), int(long.get("delta", 0)), which)
         r.fail(sig, "%s: %s" % (which, d))
+    elif long and (whole[2] or any(m["errored"] for m in whole[0])):
+        # the statement does not say where a size limit lies: a long line that every delivery rejects alike is fine
+        r.labels.append("long-line-rejected-alike")
     else:
         # secondary clause: agrees with the generating spec
         res, left, raised = whole
@@ -103,7 +270,11 @@ def run_case(case):
                 break
     body_nl = any((b"\r" in s["body"] or b"\n" in s["body"]) for s in specs)
     fancy = any(s["frame"] == "chunked" and (s.get("trailers") or any(s.get("exts") or [])) for s in specs)
-    r.nontrivial = (body_nl or fancy) and len(frags) >= 3
+    r.nontrivial = (body_nl or fancy or bool(long)) and len(frags) >= 3
+    if long:
+        r.labels.append("long-line:%s%+d" % (long["where"], int(long.get("delta", 0))))
+        if case.get("full1"):
+            r.labels.append("long-line-genuine-1-byte-reads")
     r.labels.append(kind)
     r.labels.append("cuts:" + case["cuts"]["mode"])
     if any(idle):
@@ -135,9 +306,52 @@ def _case(kind, lf=True):
                                   "idle": st.one_of(st.just([0]), st.just([0]), st.lists(st.integers(0, 2), min_size=1, max_size=4))})
 
 
+def _long_cuts():
+    """Partitions for a case with a 64 KiB line: cuts at chosen bytes around the terminator of the long line, or one
+    of the general recipes (in-crlf and after-lf cut every terminator, so also that of the long line); no short
+    fixed stride, which would be tens of thousands of reads."""
+    near = st.fixed_dictionaries({"mode": st.just("near"),
+                                  "offs": st.lists(st.integers(-3, 4), min_size=1, max_size=4, unique=True),
+                                  "extra": st.lists(st.integers(0, 10 ** 6), max_size=2)})
+    stride = st.fixed_dictionaries({"mode": st.just("every"), "k": st.integers(3000, 40000)})
+    return st.one_of(near, near, stride,
+                     httpgen.cuts().filter(lambda c: c["mode"] != "every"))
+
+
+@st.composite
+def _long_case(draw, kind, full1=False):
+    where = draw(st.sampled_from(["target" if kind == "req" else "reason", "header", "ext", "trailer"]))
+    n = draw(st.integers(1, 2))
+    k = draw(st.integers(0, n - 1))
+    msgs = []
+    for i in range(n):
+        if i == k and where in ("ext", "trailer"):
+            frames = ("chunked",)
+        elif kind == "req":
+            frames = ("none", "len", "chunked")
+        else:
+            frames = ("len", "chunked", "nobody") + (("close",) if i == n - 1 else ())
+        mk = httpgen.request_spec if kind == "req" else httpgen.response_spec
+        spec = draw(mk(frames=frames, max_body=40))
+        if kind == "req" and i < k:
+            # the long line is to be reached: requests in front of it keep the connection
+            spec["version"] = "HTTP/1.1"
+            if (spec.get("conn") or "").lower() == "close":
+                spec["conn"] = None
+        msgs.append(spec)
+    case = {"k": kind, "msgs": msgs, "cuts": draw(_long_cuts()),
+            "idle": draw(st.one_of(st.just([0]), st.lists(st.integers(0, 2), min_size=1, max_size=4))),
+            "long": {"msg": k, "where": where, "at": draw(st.integers(0, 7)), "delta": draw(st.sampled_from([0, -1, 0, 1]))}}
+    if full1 and draw(st.integers(0, 15)) == 7:      # an interior value: the end points are drawn far more often
+        case["full1"] = True       # genuine 1-byte reads over all 64 KiB (about 2 s a case)
+    return case
+
+
 def searches(tier):
     q = tier == "quick"
-    return [("requests", _case("req"), 700 if q else 9000),
+    return [("long-line-requests", _long_case("req", full1=not q), 40 if q else 200),
+            ("long-line-responses", _long_case("resp", full1=not q), 40 if q else 200),
+            ("requests", _case("req"), 700 if q else 9000),
             ("responses", _case("resp"), 700 if q else 9000),
             # CRLF-only heads: explores behind the bare-LF finding on clean cases
             ("requests-crlf", _case("req", lf=False), 400 if q else 5000),
